@@ -340,6 +340,13 @@ def check(prop, tier):
                                      "replay_detail": r["exc"] or "oracle returned False"}})
     obs = [o for o in obs if o.name not in pre_viol]
 
+    # ---- fresh-process reference values (harness.prepare runs untraced and may spawn sub-processes; traced code only reads them)
+    if hasattr(H, "prepare"):
+        prep = concrete(module, [{"kind": "prepare"}], tier, seed, timeout=900)[0]
+        pf = os.path.join(WORK, prop, "prepared.json")
+        json.dump(prep, open(pf, "w"))
+        os.environ["VERIF_PREPARED"] = pf
+
     # ---- solver runs
     with cf.ThreadPoolExecutor(max_workers=max(1, NPROC // 2)) as pool:
         futs = {}
